@@ -82,7 +82,9 @@ ObsInit(C) ==
     basis     |-> {},                       \* units held when the pending NAK lists can at the earliest have been built
     markerOk  |-> TRUE,                     \* metadata was missing when the pending NAK list was built
     finSent   |-> FALSE,
-    tx        |-> [k \in TxKinds |-> [n |-> 0, since |-> 0, gapok |-> TRUE, mark |-> 0]],
+    \* per retransmitted PDU kind: n transmissions since the count was definitely reset, nr since the
+    \* owner was last resumed (-1: not resumed since), time since the last one, all gaps >= timeout
+    tx        |-> [k \in TxKinds |-> [n |-> 0, nr |-> -1, since |-> 0, gapok |-> TRUE, mark |-> 0, sameInstant |-> FALSE]],
     finR      |-> NoFin,                    \* the receiver's success / last Finished indication
     finPdu    |-> NoFin ]                   \* the last Finished PDU put on the link
 
@@ -210,24 +212,31 @@ Step(o, ev, C) ==
       toK(k) == IF k = "nak" THEN ToNak(C) ELSE ToAck(C)
       ownerK(k) == IF k = "eof" THEN "S" ELSE "R"
       \* progress that resets the count
-      resetK(k) == IF k = "eof" THEN (Delivered(ev, "S", "ACK") /\ ev.pin.of = "EOF") \/ cancelNow \/ isCmd("S", "Resume")
+      \* progress that resets the count
+      resetK(k) == IF k = "eof" THEN (Delivered(ev, "S", "ACK") /\ ev.pin.of = "EOF") \/ cancelNow
                                       \/ (\E x \in faultInds : x.e = "S")
-                   ELSE IF k = "fin" THEN spawned \/ isCmd("R", "Resume") \/ cancelNow \/ (\E x \in faultInds : x.e = "R")
+                   ELSE IF k = "fin" THEN spawned \/ cancelNow \/ (\E x \in faultInds : x.e = "R")
                                           \/ (finOut # {} /\ o.finPdu.set /\ (CHOOSE q \in finOut : TRUE).cond # o.finPdu.cond)
-                   ELSE spawned \/ isCmd("R", "Resume")
+                   ELSE spawned
+      \* a resume may or may not reset the count (the receiver resets, the sender restarts)
+      resumeK(k) == isCmd(ownerK(k), "Resume")
       tx2 == [k \in TxKinds |->
                 LET x == o.tx[k]
                     frozen == o.susp[ownerK(k)]
                     adv == IF frozen THEN 0 ELSE dt
-                IN IF resetK(k) /\ ~emitK(k) THEN [n |-> 0, since |-> 0, gapok |-> TRUE, mark |-> x.mark]
-                   ELSE IF emitK(k) THEN
+                    fresh == [n |-> 0, nr |-> -1, since |-> 0, gapok |-> TRUE, mark |-> x.mark, sameInstant |-> FALSE]
+                    y == IF resetK(k) THEN fresh
+                         ELSE IF resumeK(k) THEN [x EXCEPT !.nr = 0, !.since = 0] ELSE x
+                IN IF emitK(k) THEN
                         \* NAK: new data since the previous round resets the count
-                        IF k = "nak" /\ Cardinality(o.held) # x.mark
-                           THEN [n |-> 1, since |-> 0, gapok |-> TRUE, mark |-> Cardinality(o.held)]
-                        ELSE IF x.n > 0 /\ x.since = 0 /\ ~resetK(k) THEN x     \* same instant: same transmission round
-                        ELSE IF resetK(k) THEN [n |-> 1, since |-> 0, gapok |-> TRUE, mark |-> x.mark]
-                        ELSE [n |-> x.n + 1, since |-> 0, gapok |-> x.gapok /\ (x.n = 0 \/ x.since >= toK(k)), mark |-> x.mark]
-                   ELSE [x EXCEPT !.since = Min2(x.since + adv, Bound(C) + 1)]]
+                        IF k = "nak" /\ Cardinality(o.held) # y.mark
+                           THEN [n |-> 1, nr |-> -1, since |-> 0, gapok |-> TRUE, mark |-> Cardinality(o.held), sameInstant |-> TRUE]
+                        ELSE IF y.n > 0 /\ y.since = 0 /\ ~resetK(k) /\ ~resumeK(k) /\ dt = 0 /\ x.sameInstant THEN y
+                        ELSE [n |-> y.n + 1, nr |-> IF y.nr >= 0 THEN y.nr + 1 ELSE -1, since |-> 0,
+                              gapok |-> y.gapok /\ (y.n = 0 \/ y.nr = 0 \/ y.since >= toK(k)), mark |-> y.mark,
+                              sameInstant |-> TRUE]
+                   ELSE [y EXCEPT !.since = Min2(y.since + adv, Bound(C) + 1),
+                                  !.sameInstant = y.sameInstant /\ dt = 0]]
 
       finR2 == IF firstDelivery THEN FinOf(CHOOSE x \in finIndR : IsSucc(x, C))
                ELSE IF finIndR # {} /\ ~o.delivered THEN FinOf(CHOOSE x \in finIndR : TRUE) ELSE o.finR
@@ -283,7 +292,8 @@ Step(o, ev, C) ==
 
       v10 == (IF C.isfile /\ (o.ncancel > 0 \/ cancelNow) /\ ev.dest.st # "absent" /\ ~delivered2 THEN {"C10:NoPartialFile"} ELSE {})
              \cup {"C10:CancelEnds" : e \in {x \in Ents : cancel2[x] /\ ~ended2[x] /\ sinceCancel2[x] > Bound(C)}}
-             \cup (IF justEnded /\ o.cancelEff /\ nfaults2 = 0 /\ ~o.adversary /\ o.ncancel = 1
+             \* (a transfer that completed before the cancel took effect at the peer reports success)
+             \cup (IF justEnded /\ o.cancelEff /\ ~delivered2 /\ nfaults2 = 0 /\ ~o.adversary /\ o.ncancel = 1
                       /\ \E e \in Ents : ~repCancel2[e]
                    THEN {"C10:CancelReported"} ELSE {})
 
@@ -292,12 +302,13 @@ Step(o, ev, C) ==
              \cup {"C13:ResponsesDiffer" : p \in {q \in finOut : q.cond = "NoError" /\ o.finR.set /\ q.resp # o.finR.resp}}
              \cup {"C13:ResponsesDiffer" : x \in {y \in finIndS : Delivered(ev, "S", "Finished") /\ y.resp # ev.pin.resp}}
 
+      \* one original plus one retransmission per earlier expiration; after a resume that reset the
+      \* count there is no new original, only the retransmissions
+      countOk(t) == t.n = C.limit \/ (t.nr >= 0 /\ t.nr \in {C.limit - 1, C.limit})
       faultOk(x) ==
         LET k == IF x.e = "S" THEN "eof" ELSE "fin" IN
-        CASE x.cond = "PositiveLimitReached" ->
-               o.tx[k].n = C.limit /\ o.tx[k].gapok /\ o.tx[k].since >= ToAck(C)
-          [] x.cond = "NakLimitReached" ->
-               o.tx["nak"].n = C.limit /\ o.tx["nak"].gapok /\ o.tx["nak"].since >= ToNak(C)
+        CASE x.cond = "PositiveLimitReached" -> countOk(o.tx[k]) /\ o.tx[k].gapok /\ o.tx[k].since >= ToAck(C)
+          [] x.cond = "NakLimitReached" -> countOk(o.tx["nak"]) /\ o.tx["nak"].gapok /\ o.tx["nak"].since >= ToNak(C)
           [] x.cond = "InactivityDetected" -> o.idle[x.e] >= C.limit * ToInact(C)
           [] OTHER -> TRUE
       handlerOk(x) ==
